@@ -146,7 +146,11 @@ fn write_foreign(ts: &TileSet, target: &str, dir: &Path, rng: &mut Rng) -> Resul
 			std::fs::write(&path, b).map_err(|e| e.to_string())?
 		}
 		"tar" => std::fs::write(&path, itar::encode(ts, &itar::EncOpts::random(rng), rng)).map_err(|e| e.to_string())?,
-		"directory" => idir::encode(ts, &path, &idir::EncOpts::random(rng))?,
+		"directory" => {
+			let mut o = idir::EncOpts::random(rng);
+			o.alt_spellings = rng.chance(0.5);
+			idir::encode(ts, &path, &o)?
+		}
 		_ => imb::encode(ts, &path, &imb::EncOpts::random(rng), rng)?,
 	}
 	Ok(path)
@@ -192,7 +196,8 @@ pub fn related_sets(rng: &mut Rng, n: usize, max_tiles: usize, mixed_comp: bool,
 					if rng.chance(0.7) {
 						let (x, y) = (ax as i64 + ox + dx, ay as i64 + oy + dy);
 						if x >= 0 && y >= 0 && x <= m && y <= m && tiles.len() < max_tiles {
-							let raw = format!("s{i}:{z}/{x}/{y};{}", "p".repeat(rng.below(40) as usize)).into_bytes();
+							// now and then a tile whose decoded payload is empty (only where the stored bytes are not)
+							let raw = if comp != Comp::None && rng.chance(0.04) { vec![] } else { format!("s{i}:{z}/{x}/{y};{}", "p".repeat(rng.below(40) as usize)).into_bytes() };
 							tiles.insert((*z, x as u32, y as u32), comp::compress(&raw, comp));
 						}
 					}
